@@ -129,7 +129,12 @@ pub fn gen_dir(rng: &mut Rng) -> String {
 
 pub fn gen_path(rng: &mut Rng) -> String {
     let dir = gen_dir(rng);
-    let f = if rng.chance(1, 6) { format!("{}.{}", gen_ident(rng, 4), rng.pick(&["bin", "txt", "lz", "cmp"])) } else { rng.pick(&FILES).to_string() };
+    let f = if rng.chance(1, 40) {
+        // a file name close to the 255-byte limit of a path component
+        let total = *rng.pick(&[200usize, 247, 250, 251, 252, 253, 254, 255]);
+        let ext = *rng.pick(&[".bin", ".dat", ".lz", ".cmp"]);
+        format!("{}{}", "L".repeat(total - ext.len()), ext)
+    } else if rng.chance(1, 6) { format!("{}.{}", gen_ident(rng, 4), rng.pick(&["bin", "txt", "lz", "cmp"])) } else { rng.pick(&FILES).to_string() };
     if dir.is_empty() {
         f
     } else {
@@ -242,6 +247,9 @@ impl World {
                         }
                     }
                 }
+                if p.split('/').any(|comp| comp.len() > 255) {
+                    continue;
+                }
                 // do not create a file below something that is already a file, nor over a directory
                 let comps: Vec<&str> = p.split('/').collect();
                 if (1..comps.len()).any(|i| matches!(t.get(&comps[..i].join("/")), Some(Node::File(_)))) || t.contains_key(&p) {
@@ -309,9 +317,56 @@ impl World {
             }
             layers.push(t);
         }
+        // thresholds: a directory with more than 64 entries some of which exist in several layers,
+        // and a chain of more than 32 nested directories
+        if rng.chance(1, 30) {
+            c.sit("directory_with_more_than_64_entries_and_cross_layer_duplicates");
+            let n = rng.range(65, 140);
+            let dir = if rng.bool() { "wide".to_string() } else { format!("{}/wide", rng.pick(&DIRS)) };
+            let clear = |t: &Tree, p: &str| -> bool {
+                let comps: Vec<&str> = p.split('/').collect();
+                !(1..comps.len()).any(|i| matches!(t.get(&comps[..i].join("/")), Some(Node::File(_)))) && !t.contains_key(p)
+            };
+            for k in 0..n {
+                let p = format!("{}/w{:03}.bin", dir, k);
+                let li = if k % 9 == 0 { layers.len() - 1 } else { 0 };
+                if clear(&layers[li], &p) {
+                    add_parents(&mut layers[li], &p);
+                    layers[li].insert(p.clone(), Node::File(vec![k as u8; k % 5]));
+                }
+                // some of the early ones again in every other layer
+                if k % 7 == 0 {
+                    for t in layers.iter_mut() {
+                        if clear(t, &p) {
+                            add_parents(t, &p);
+                            t.insert(p.clone(), Node::File(vec![0xEE; 3]));
+                        }
+                    }
+                }
+            }
+        }
+        if rng.chance(1, 30) {
+            c.sit("more_than_32_nested_directories");
+            let depth = rng.range(33, 45);
+            let li = rng.below(layers.len());
+            let mut p = String::from("deep");
+            for k in 0..depth {
+                p.push_str(if k % 2 == 0 { "/d" } else { "/e" });
+            }
+            let file = format!("{}/leaf.bin", p);
+            let comps: Vec<&str> = file.split('/').collect();
+            if !(1..comps.len()).any(|i| matches!(layers[li].get(&comps[..i].join("/")), Some(Node::File(_)))) {
+                add_parents(&mut layers[li], &file);
+                layers[li].insert(file, Node::File(b"leaf".to_vec()));
+            }
+        }
+        if c.idx % 4 == 3 {
+            c.sit("layer_roots_with_non_ascii_names");
+        }
         let mut roots = Vec::new();
         for (i, t) in layers.iter().enumerate() {
-            let r = base.join(format!("L{}", i));
+            // every fourth world keeps its layers in directories with non-ASCII names
+            let r = if c.idx % 4 == 3 { base.join(format!("L{}/パッチ Ü{}", i, i)) } else { base.join(format!("L{}", i)) };
             materialize(&r, t).map_err(|e| format!("materializing layer {}: {}", i, e))?;
             roots.push(r);
         }
@@ -568,6 +623,16 @@ pub fn exec(c: &mut Case, w: &mut World, op: &FOp) -> bool {
         | FOp::WriteArchive(p, _, l) | FOp::ReadArchive(p, l) | FOp::WriteText(p, _, l) | FOp::ReadText(p, l) | FOp::ReadPack(p, l) | FOp::ReadArc(p, l) | FOp::ReadTex(p, l) => (p.clone(), *l),
     };
     let ap = w.actual(&path, localized);
+    if let Some(a) = &ap {
+        if a.split('/').any(|comp| comp.len() > 255) {
+            // the localized name does not fit a path component on this platform: outside the domain
+            c.sit("skipped_component_longer_than_255_bytes");
+            return true;
+        }
+        if a.split('/').any(|comp| comp.len() >= 252) {
+            c.sit("component_of_252_to_255_bytes");
+        }
+    }
     c.sit(if localized { "localized_call" } else { "unlocalized_call" });
     if ap.is_none() {
         c.sit("unsupported_pair_call");
@@ -946,10 +1011,17 @@ pub fn exec(c: &mut Case, w: &mut World, op: &FOp) -> bool {
                     ok = false;
                 }
                 Some(Err(e)) if exp_ok => {
-                    // e.g. a compressor refusing the input: only "nothing changed" is asserted below
-                    c.outcome("write_err_on_writable_target");
-                    if c.verbose {
-                        eprintln!("write error: {}", e);
+                    // The only legitimate refusals: a payload the 24-bit length field of the game's
+                    // compressed format cannot describe, and trouble of the machine (disk full).
+                    let too_big = loc::compressed_suffix(&w.cfg, &path) && logical.as_ref().map(|b| b.len() >= (1 << 24)).unwrap_or(false);
+                    if too_big {
+                        c.outcome("write_refused_payload_of_16MiB_or_more_under_compressed_suffix");
+                    } else if e.contains("No space left") || e.contains("Too many open files") {
+                        c.st.harness_errors.push(format!("environment: {}", e));
+                        ok = false;
+                    } else {
+                        c.fail("write", "write_failed_on_writable_target", ctxs(&format!("returned Err({}) although the target is writable in the top layer and the payload is legal", e), w));
+                        ok = false;
                     }
                 }
                 Some(Ok(())) => {
